@@ -3,6 +3,7 @@
 #include "geom_util.h"
 #include <fstream>
 #include <sys/stat.h>
+#include <sys/wait.h>
 
 namespace c36 {
 using namespace SimTK;
@@ -70,6 +71,20 @@ inline std::string writeFile(const std::string& name, const std::string& content
 }
 inline void removeTmp(const std::string& p) { unlink(p.c_str()); }
 struct TmpCleaner { ~TmpCleaner() { if (!tmpDir().empty()) rmdir(tmpDir().c_str()); } };
+
+// Run a probe in a forked child so that a memory error inside it (ASan abort / SEGV) is observed without losing the
+// worker. Returns 0 if the child finished normally, otherwise the terminating signal (or 1000+exit status).
+template <class F> inline int forkProbe(F f) {
+    fflush(stdout); fflush(stderr);
+    pid_t pid = fork();
+    if (pid < 0) return -1;
+    if (pid == 0) { f(); fflush(stdout); _exit(0); }
+    int st = 0;
+    while (waitpid(pid, &st, 0) < 0) {}
+    if (WIFSIGNALED(st)) return WTERMSIG(st);
+    if (WIFEXITED(st) && WEXITSTATUS(st) != 0) return 1000 + WEXITSTATUS(st);
+    return 0;
+}
 
 // ---- writers. 'variant' selects legal syntactic variations of the same content
 inline std::string writeObj(const PolyData& P, int variant, vh::Rng& r, bool& hasNormals) {
@@ -233,7 +248,17 @@ inline void roundTripChecks(vh::Ctx& c, vh::Rng& r, long idx) {
     // data read from the file must be safely accessible through the public API
     if (same) {
         c.setPhase("round trip normals access " + cell);
-        if (mesh.hasNormalsAtFaces() && !mesh.hasNormalsAtVertices()) {
+        bool normalsSafe = true;
+        if (mesh.hasNormalsAtFaces() && !mesh.hasNormalsAtVertices() && fmt == 0) {
+            // first touch the per-face normals in a child process: a wild read here must not take the worker down
+            int rc = forkProbe([&] { volatile double acc = 0; for (int f = 0; f < mesh.getNumFaces(); ++f) for (int k = 0; k < mesh.getNumVerticesForFace(f); ++k) acc = acc + mesh.getVertexNormal(f, k)[0]; });
+            if (rc != 0) {
+                normalsSafe = false;
+                c.viol(std::string("memory-unsafe:obj:v") + std::to_string(variant) + ":getVertexNormal(face,vertex)", W("reading the normals the loader reports crashed the probe process (status " + std::to_string(rc) + ")")());
+            }
+        }
+        if (!normalsSafe) {}
+        else if (mesh.hasNormalsAtFaces() && !mesh.hasNormalsAtVertices()) {
             double worst = 0;
             for (int f = 0; f < mesh.getNumFaces(); ++f) for (int k = 0; k < mesh.getNumVerticesForFace(f); ++k) {
                 Vec3 n(mesh.getVertexNormal(f, k));
